@@ -2,7 +2,8 @@ import S3V.Thm.XmlEscape
 /-!
 The tokeniser reads back what the writer wrote: `deEvents (tokenize (write evs)) = evs` for well-nested event
 sequences with element names made of name bytes, at most an `xmlns` attribute, and `<`-free non-empty texts that
-are not adjacent — in particular for everything the encoder produces (`XmlTokenEnc.lean`).
+are not adjacent and — outside every element — white space only (the deserialiser refuses other character data
+there) — in particular for everything the encoder produces (`XmlTokenEnc.lean`).
 -/
 namespace S3V.Xml
 open S3V
@@ -224,7 +225,7 @@ def Ev.toQ : Ev → QEv
   | .stop n => .stop n
   | .text raw => .text raw
   | .cdata c => .cdata c
-  | .bad => .err
+  | .bad _ => .err
 
 def Ev.isTextB : Ev → Bool
   | .text _ => true
@@ -236,14 +237,16 @@ def headNotText : List Ev → Bool
   | e :: _ => !e.isTextB
 
 /-- well-nested w.r.t. the stack of open element names; names are good, attributes at most the `xmlns` one, texts are
-non-empty, `<`-free and followed by a tag (never by another text) -/
+non-empty, `<`-free and followed by a tag (never by another text); a text outside every element (empty stack) is
+white space -/
 def WN : List Bytes → List Ev → Prop
   | _, [] => True
   | st, .start n r :: t => goodName n = true ∧ GoodRest r ∧ WN (n :: st) t
   | st, .stop n :: t => goodName n = true ∧ (∃ st', st = n :: st' ∧ WN st' t)
-  | st, .text raw :: t => raw ≠ [] ∧ (∀ c ∈ raw, c ≠ cLt) ∧ headNotText t = true ∧ WN st t
+  | st, .text raw :: t =>
+    (st ≠ [] ∨ raw.all isWs = true) ∧ raw ≠ [] ∧ (∀ c ∈ raw, c ≠ cLt) ∧ headNotText t = true ∧ WN st t
   | _, .cdata _ :: _ => False     -- the serialiser never writes a CDATA section
-  | _, .bad :: _ => False
+  | _, .bad _ :: _ => False
 
 theorem write_cons (e : Ev) (t : List Ev) : write (e :: t) = writeEv e ++ write t := by simp [write]
 
@@ -261,7 +264,7 @@ theorem tokLoop_tag (k : Nat) (raw : Bytes) (hraw : ∀ c ∈ raw, c ≠ cLt) (e
         = (if raw = [] then [] else [QEv.text raw]) ++ e.toQ :: tokLoop k (write t) (nextStack e st) := by
   cases e with
   | text _ => simp [Ev.isTextB] at he
-  | bad => simp [WN] at hwn
+  | bad _ => simp [WN] at hwn
   | cdata _ => simp [WN] at hwn
   | start n r =>
     simp only [WN] at hwn
@@ -289,9 +292,9 @@ theorem writeEv_length_pos (e : Ev) (st : List Bytes) (t : List Ev) (h : WN st (
   | text raw =>
     simp only [WN] at h
     simp only [writeEv]
-    exact List.length_pos_iff.mpr h.1
+    exact List.length_pos_iff.mpr h.2.1
   | cdata _ => simp [WN] at h
-  | bad => simp [WN] at h
+  | bad _ => simp [WN] at h
 
 /-- **the tokeniser reads back what the writer wrote** -/
 theorem tokLoop_write : ∀ (evs : List Ev) (st : List Bytes) (fuel : Nat), WN st evs → (write evs).length < fuel →
@@ -316,11 +319,11 @@ theorem tokLoop_write : ∀ (evs : List Ev) (st : List Bytes) (fuel : Nat), WN s
         cases e with
         | start _ _ => simp [Ev.isTextB] at hte
         | stop _ => simp [Ev.isTextB] at hte
-        | bad => simp [Ev.isTextB] at hte
+        | bad _ => simp [Ev.isTextB] at hte
         | cdata _ => simp [Ev.isTextB] at hte
         | text raw =>
           simp only [WN] at hwn
-          obtain ⟨hne, hraw, hhead, hwt⟩ := hwn
+          obtain ⟨_, hne, hraw, hhead, hwt⟩ := hwn
           cases t with
           | nil =>
             have : write [Ev.text raw] = raw := by simp [write, writeEv]
@@ -341,27 +344,37 @@ theorem tokLoop_write : ∀ (evs : List Ev) (st : List Bytes) (fuel : Nat), WN s
             simp only [List.map_cons, List.cons.injEq, true_and] at ih
             simp [hne, ih, Ev.toQ]
 
-theorem deEvents_toQ : ∀ (evs : List Ev) (st : List Bytes), WN st evs → deEvents (evs.map Ev.toQ) = evs
-  | [], _, _ => rfl
+theorem deEvents_toQ : ∀ (evs : List Ev) (st : List Bytes), WN st evs → deEventsAt st.length (evs.map Ev.toQ) = evs
+  | [], _, _ => by simp [deEventsAt]
   | .start n r :: t, st, h => by
     simp only [WN] at h
-    simp [Ev.toQ, deEvents, deEvents_toQ t _ h.2.2]
+    have ih := deEvents_toQ t (n :: st) h.2.2
+    simp only [List.length_cons] at ih
+    simp [Ev.toQ, deEventsAt, ih]
   | .stop n :: t, st, h => by
     simp only [WN] at h
-    obtain ⟨_, st', _, hw⟩ := h
-    simp [Ev.toQ, deEvents, deEvents_toQ t _ hw]
+    obtain ⟨_, st', hst, hw⟩ := h
+    subst hst
+    have ih := deEvents_toQ t st' hw
+    simp [Ev.toQ, deEventsAt, ih]
   | .text raw :: t, st, h => by
     simp only [WN] at h
-    simp [Ev.toQ, deEvents, deEvents_toQ t _ h.2.2.2]
+    have ih := deEvents_toQ t st h.2.2.2.2
+    have hcond : ¬ (st.length = 0 ∧ raw.all isWs = false) := by
+      intro hc
+      rcases h.1 with h1 | h1
+      · exact h1 (List.length_eq_zero_iff.mp hc.1)
+      · rw [h1] at hc; exact absurd hc.2 (by simp)
+    simp only [List.map_cons, Ev.toQ, deEventsAt, if_neg hcond, ih]
   | .cdata _ :: _, _, h => by simp [WN] at h
-  | .bad :: _, _, h => by simp [WN] at h
+  | .bad _ :: _, _, h => by simp [WN] at h
 
 /-- a written document does not start with a byte-order mark -/
 theorem stripBom_write (e : Ev) (t : List Ev) (st : List Bytes) (he : e.isTextB = false) (h : WN st (e :: t)) :
     stripBom (write (e :: t)) = write (e :: t) := by
   cases e with
   | text _ => simp [Ev.isTextB] at he
-  | bad => simp [WN] at h
+  | bad _ => simp [WN] at h
   | cdata _ => simp [WN] at h
   | start n r => simp [write_cons, writeEv, stripBom, cLt]
   | stop n => simp [write_cons, writeEv, stripBom, cLt]
@@ -371,7 +384,7 @@ theorem tokenize_write (evs : List Ev) (hhead : headNotText evs = true) (h : WN 
     deEvents (tokenize (write evs)) = evs := by
   unfold tokenize
   cases evs with
-  | nil => simp [write, stripBom, tokLoop, splitAtByte, deEvents]
+  | nil => simp [write, stripBom, tokLoop, splitAtByte, deEvents, deEventsAt]
   | cons e t =>
     have he : e.isTextB = false := by simpa [headNotText] using hhead
     rw [stripBom_write e t [] he h, tokLoop_write (e :: t) [] _ h (by omega)]
